@@ -178,7 +178,7 @@ fn gen_binds(rng: &mut Rng) -> Vec<Bind> {
     out
 }
 
-fn program_text(binds: &[Bind]) -> String {
+fn program_text(binds: &[Bind], tasked: bool) -> String {
     let mut g = String::from("CONFIGURATION C\nVAR_GLOBAL\n  trip : BOOL;\n  zero : DINT;\n  boom : DINT;\n");
     let mut ext = String::from("  trip : BOOL;\n  zero : DINT;\n  boom : DINT;\n");
     let mut p2vars = String::new();
@@ -226,7 +226,12 @@ fn program_text(binds: &[Bind]) -> String {
             }
         }
     }
-    g += "END_VAR\nTASK Fast (INTERVAL := T#1ms, PRIORITY := 1);\nPROGRAM I1 WITH Fast : P1;\nPROGRAM I2 : P2;\nEND_CONFIGURATION\n";
+    if tasked {
+        // every program is bound to a task: a cycle in which no time passed has nothing to execute (idle cycle)
+        g += "END_VAR\nTASK Fast (INTERVAL := T#1ms, PRIORITY := 1);\nTASK Slow (INTERVAL := T#1ms, PRIORITY := 2);\nPROGRAM I1 WITH Fast : P1;\nPROGRAM I2 WITH Slow : P2;\nEND_CONFIGURATION\n";
+    } else {
+        g += "END_VAR\nTASK Fast (INTERVAL := T#1ms, PRIORITY := 1);\nPROGRAM I1 WITH Fast : P1;\nPROGRAM I2 : P2;\nEND_CONFIGURATION\n";
+    }
     format!(
         "{g}PROGRAM P1\nVAR_EXTERNAL\n{ext}END_VAR\n{p1}END_PROGRAM\nPROGRAM P2\nVAR_EXTERNAL\n{ext}END_VAR\nVAR\n{p2vars}END_VAR\n{p2a}{p2b}IF trip THEN boom := DINT#1 / zero; END_IF;\nEND_PROGRAM\n"
     )
@@ -238,12 +243,16 @@ pub struct Cyc {
     pub stim_a: Vec<u64>,   // per binding
     pub stim_b: Vec<u64>,
     pub trip: bool,
+    /// no time passes before this cycle (with `tasked` programs nothing is due: an idle cycle)
+    pub dt0: bool,
+    /// same for every cycle of a case: all programs are bound to tasks (no background program)
+    pub tasked: bool,
 }
 
 fn case_json(binds: &[Bind], cycles: &[Cyc]) -> J {
     json!({
         "binds": binds.iter().map(|b| json!([b.area.to_string(), b.sz.letter(), b.byte, b.bit, b.ty, b.in_program])).collect::<Vec<_>>(),
-        "cycles": cycles.iter().map(|c| json!({"in": c.inputs, "a": c.stim_a.iter().map(|x| x.to_string()).collect::<Vec<_>>(), "b": c.stim_b.iter().map(|x| x.to_string()).collect::<Vec<_>>(), "trip": c.trip})).collect::<Vec<_>>(),
+        "cycles": cycles.iter().map(|c| json!({"in": c.inputs, "a": c.stim_a.iter().map(|x| x.to_string()).collect::<Vec<_>>(), "b": c.stim_b.iter().map(|x| x.to_string()).collect::<Vec<_>>(), "trip": c.trip, "dt0": c.dt0, "tasked": c.tasked})).collect::<Vec<_>>(),
     })
 }
 
@@ -267,6 +276,8 @@ fn parse_case(v: &J) -> (Vec<Bind>, Vec<Cyc>) {
             stim_a: c["a"].as_array().unwrap().iter().map(|x| x.as_str().unwrap().parse().unwrap()).collect(),
             stim_b: c["b"].as_array().unwrap().iter().map(|x| x.as_str().unwrap().parse().unwrap()).collect(),
             trip: c["trip"].as_bool().unwrap(),
+            dt0: c["dt0"].as_bool().unwrap_or(false),
+            tasked: c["tasked"].as_bool().unwrap_or(false),
         })
         .collect();
     (binds, cycles)
@@ -287,10 +298,12 @@ struct Stats {
     seen_checks: u64,
     bits_checked: u64,
     faulted_cycles: u64,
+    idle_cycles: u64,
 }
 
 fn run_case(binds: &[Bind], cycles: &[Cyc]) -> Result<Stats, (String, String, usize)> {
-    let text = program_text(binds);
+    let tasked = cycles.first().map(|c| c.tasked).unwrap_or(false);
+    let text = program_text(binds, tasked);
     let mut h = TestHarness::from_source(&text).map_err(|e| ("compile".to_string(), format!("{e}\n{text}"), 0))?;
     let log = Arc::new(Log::default());
     let mut scripts: Vec<Arc<Mutex<Script>>> = Vec::new();
@@ -305,7 +318,9 @@ fn run_case(binds: &[Bind], cycles: &[Cyc]) -> Result<Stats, (String, String, us
     h.runtime_mut().io_mut().memory_mut().fill(PATTERN);
     let mut prev_out = vec![PATTERN; IMG];
     let mut prev_mem = vec![PATTERN; IMG];
-    let mut st = Stats { cycles: 0, seen_checks: 0, bits_checked: 0, faulted_cycles: 0 };
+    let mut st = Stats { cycles: 0, seen_checks: 0, bits_checked: 0, faulted_cycles: 0, idle_cycles: 0 };
+    // value each output-bound variable holds: what the last executed cycle assigned, initially zero
+    let mut eff_b: Vec<u64> = vec![0; binds.len()];
     for (ci, c) in cycles.iter().enumerate() {
         let e = |clause: &str, d: String| (clause.to_string(), format!("cycle {ci}: {d}"), ci);
         for (d, sc) in scripts.iter().enumerate() {
@@ -324,7 +339,10 @@ fn run_case(binds: &[Bind], cycles: &[Cyc]) -> Result<Stats, (String, String, us
             }
         }
         h.set_input("trip", c.trip);
-        h.advance_time(Duration::from_millis(1));
+        let expect_idle = tasked && c.dt0 && !c.trip;
+        if !expect_idle {
+            h.advance_time(Duration::from_millis(1));
+        }
         let res = h.cycle();
         let evs: Vec<Ev> = log.take();
         let kinds: Vec<(usize, Kind)> = evs.iter().map(|e| (e.driver, e.kind.clone())).collect();
@@ -359,8 +377,16 @@ fn run_case(binds: &[Bind], cycles: &[Cyc]) -> Result<Stats, (String, String, us
         // statement counter: reads before any statement of this cycle, writes after all
         let s_read = evs[1].stmt_count;
         let s_write = evs[2].stmt_count;
-        if evs[0].stmt_count != s_read || evs[3].stmt_count != s_write || s_write <= s_read {
-            return Err(e("calls|not-around-program-code", format!("statement counter at calls: {:?}", evs.iter().map(|e| e.stmt_count).collect::<Vec<_>>())));
+        let idle = s_write == s_read;
+        if evs[0].stmt_count != s_read || evs[3].stmt_count != s_write || s_write < s_read || idle != expect_idle {
+            return Err(e("calls|not-around-program-code", format!("statement counter at calls: {:?} (idle cycle expected: {expect_idle})", evs.iter().map(|e| e.stmt_count).collect::<Vec<_>>())));
+        }
+        if idle {
+            st.idle_cycles += 1;
+        } else {
+            for (k, b) in binds.iter().enumerate() {
+                eff_b[k] = mask_raw(b.ty, c.stim_b[k]);
+            }
         }
         // (2) latched values
         let latched = h.runtime().io().inputs().to_vec();
@@ -368,6 +394,9 @@ fn run_case(binds: &[Bind], cycles: &[Cyc]) -> Result<Stats, (String, String, us
             return Err(e("latch|image", format!("input image {:02x?} != delivered {:02x?}", latched, c.inputs)));
         }
         for (k, b) in binds.iter().enumerate() {
+            if idle {
+                break; // no program ran: the observer variables keep their previous values
+            }
             match b.area {
                 'I' => {
                     let want = mask_raw(b.ty, b.decode(&c.inputs));
@@ -405,8 +434,9 @@ fn run_case(binds: &[Bind], cycles: &[Cyc]) -> Result<Stats, (String, String, us
                     let m = 1u8 << bit;
                     let mut covering = false;
                     let mut ok = false;
-                    for (k, b) in binds.iter().enumerate().filter(|(_, b)| b.area == area) {
-                        for (bi, mask, val) in b.encode_bits(mask_raw(b.ty, c.stim_b[k])) {
+                    // in an idle cycle %M variables are loaded from and stored back to the image (unchanged), %Q variables keep their value
+                    for (k, b) in binds.iter().enumerate().filter(|(_, b)| b.area == area && !(idle && area == 'M')) {
+                        for (bi, mask, val) in b.encode_bits(eff_b[k]) {
                             if bi == byte && mask & m != 0 {
                                 covering = true;
                                 if (val & m) == (img[byte] & m) {
@@ -441,6 +471,8 @@ fn gen_cycles(rng: &mut Rng, binds: &[Bind]) -> Vec<Cyc> {
             stim_a: binds.iter().map(|_| rng.next()).collect(),
             stim_b: binds.iter().map(|_| match rng.below(6) { 0 => 0, 1 => u64::MAX, 2 => 0x8000_0000_8000_8080, _ => rng.next() }).collect(),
             trip: trip_last && i == n - 1,
+            dt0: false,
+            tasked: false,
         })
         .collect()
 }
@@ -502,6 +534,7 @@ fn one(sh: &mut Shard, binds: Vec<Bind>, cycles: Vec<Cyc>) {
             sh.count("latched_reads_compared", st.seen_checks);
             sh.count("image_bits_checked", st.bits_checked);
             sh.count("faulted_cycles_checked", st.faulted_cycles);
+            sh.count("idle_cycles_checked", st.idle_cycles);
             let has_i = binds.iter().any(|b| b.area == 'I');
             let has_q = binds.iter().any(|b| b.area == 'Q');
             if has_i && has_q {
@@ -513,7 +546,7 @@ fn one(sh: &mut Shard, binds: Vec<Bind>, cycles: Vec<Cyc>) {
                 sh.seen("binding_kinds", format!("%{}{}:{}:{}", b.area, b.sz.letter(), b.ty, if b.in_program { "program" } else { "global" }));
             }
             if sh.want_sample() && binds.len() <= 4 {
-                sh.sample(json!({"program": program_text(&binds), "cycles": cycles.len()}));
+                sh.sample(json!({"program": program_text(&binds, cycles.first().map(|c| c.tasked).unwrap_or(false)), "cycles": cycles.len()}));
             }
         }
     }
@@ -616,7 +649,14 @@ pub fn run(sh: &mut Shard) {
         i += 1;
         let mut r = rng.fork(i);
         let binds = gen_binds(&mut r);
-        let cycles = gen_cycles(&mut r, &binds);
+        let mut cycles = gen_cycles(&mut r, &binds);
+        // a third of the cases bind every program to a task and let no time pass before some cycles (idle cycles)
+        if r.chance(1, 3) {
+            for c in cycles.iter_mut() {
+                c.tasked = true;
+                c.dt0 = !c.trip && r.chance(2, 5);
+            }
+        }
         one(sh, binds, cycles);
     }
 }
